@@ -20,6 +20,7 @@ import (
 	"github.com/google/gce-tcb-verifier/gcetcbendorsement"
 	epb "github.com/google/gce-tcb-verifier/proto/endorsement"
 	"github.com/google/gce-tcb-verifier/rotate"
+	"github.com/google/gce-tcb-verifier/sev"
 	"github.com/google/gce-tcb-verifier/verify"
 	spb "github.com/google/go-sev-guest/proto/sevsnp"
 	"google.golang.org/protobuf/proto"
@@ -460,11 +461,23 @@ func run(c *core.Ctx) {
 			}
 			h.recheck(all, step, "endorse")
 		}
+		// the stored bytes are taken verbatim: an endorsement whose last bytes happen to be zero (the signature is the last
+		// field on the wire and ends in 0x00 once in 256 signatures) must verify like any other. Sign until one does.
+		if !viaCLI {
+			h.trailingZeroProbe(ncmd + 1)
+		}
 		if hi < 6 {
 			c.Sample(map[string]any{"history": h.gname, "commands": cmds})
 		}
 		c.End(hi)
 		os.RemoveAll(dir)
+	}
+	// one history on the real clock, the way the command line runs without --timestamp: validators built with an
+	// unset verification time ("the time of the call") BEFORE a rotation must accept what is endorsed after it
+	if wc := nh; c.Mine(wc) {
+		c.Begin(wc, "wall-clock history", "bootstrap/rotate/endorse", nil)
+		wallClockHistory(c, wc)
+		c.End(wc)
 	}
 	c.Count("endorsements-issued-and-checked", issuedTotal)
 	c.Floor("issued-some-endorsements", issuedTotal > 0)
@@ -516,6 +529,51 @@ func (h *hist) endorseCLI(ec *endorse.Context, step int) error {
 	return a.CLI(args...)
 }
 
+// trailingZeroProbe signs a small document through endorse.SignDoc until the signature ends in a zero byte and
+// verifies the serialized endorsement (bytes) and the message (proto) under the authority's root.
+func (h *hist) trailingZeroProbe(step int) {
+	root, why := h.root()
+	if root == nil {
+		h.viol("authority-root-unavailable", "trailing-zero probe: %s", why)
+		return
+	}
+	pool := x509.NewCertPool()
+	pool.AddCert(root)
+	st := h.a.Observe()
+	if st.PrimaryCert == nil {
+		return
+	}
+	nb, na := window(root, st.PrimaryCert)
+	mid := nb.Add(na.Sub(nb) / 2)
+	for try := 0; try < 3000; try++ {
+		ctx, err := h.a.Context(&doubles.FCtl{}, authority.Opts{})
+		if err != nil {
+			return
+		}
+		e, err := endorse.SignDoc(endorse.NewContext(ctx, &endorse.Context{Timestamp: nb}), &epb.VMGoldenMeasurement{Digest: make([]byte, 48), ClSpec: uint64(1 + try)})
+		if err != nil {
+			h.viol("fault-free-signing-failed", "trailing-zero probe: %v", err)
+			return
+		}
+		if n := len(e.Signature); n == 0 || e.Signature[n-1] != 0 {
+			continue
+		}
+		raw, _ := proto.Marshal(e)
+		h.c.Eval(2)
+		h.c.Count("endorsements-ending-in-a-zero-byte-verified", 1)
+		if raw[len(raw)-1] != 0 {
+			return // wire order changed: nothing to probe
+		}
+		if err := verify.Endorsement(raw, &verify.Options{RootsOfTrust: pool, Now: mid}); err != nil {
+			h.viol("pipeline-endorsement-rejected", "an endorsement whose serialized form ends in a zero byte (signature ...%x) is rejected by verify.Endorsement: %v (verify.EndorsementProto on the same message: %v)",
+				e.Signature[len(e.Signature)-4:], err, verify.EndorsementProto(e, &verify.Options{RootsOfTrust: pool, Now: mid}))
+		}
+		h.c.Cell("%s|trailing-zero-endorsement", h.a.Name())
+		return
+	}
+	h.c.Count("trailing-zero-probe-gave-up", 1)
+}
+
 func vm(ec *endorse.Context) uint32 {
 	if ec.SevSnp == nil {
 		return 0
@@ -529,3 +587,69 @@ func shapes(ec *endorse.Context) int {
 	return len(ec.Tdx.MachineShapes)
 }
 func early(ec *endorse.Context) bool { return ec.Tdx != nil && ec.Tdx.IncludeEarlyAccept }
+
+// wallClockHistory: bootstrap an hour ago, build long-lived validators with Now unset, wait past a second
+// boundary, rotate at time.Now(), endorse, and validate with the validators built before the rotation and with
+// fresh ones. Acceptance is expected whatever the clock reads (time only moves forward; certificates are valid
+// from their creation second), so the verdict does not depend on the clock value.
+func wallClockHistory(c *core.Ctx, idx int) {
+	dir, _ := os.MkdirTemp("", "verif-c03-wc-")
+	defer os.RemoveAll(dir)
+	a := authority.New(authority.MemKM, authority.GcscaMem, dir)
+	h := &hist{c: c, idx: idx, gname: "wall-clock history memkm+gcsca-mem", a: a, vcs: doubles.NewMemVCS(nil), vcek: map[int64][]byte{}}
+	var cmds []string
+	h.cmds = &cmds
+	start := time.Now().Add(-time.Hour).Truncate(time.Second)
+	if err := a.Bootstrap(&doubles.FCtl{}, authority.Opts{}, authority.DefaultBootstrap(start)); err != nil {
+		h.viol("bootstrap-failed", "%v", err)
+		return
+	}
+	root, why := h.root()
+	if root == nil {
+		h.viol("authority-root-unavailable", "%s", why)
+		return
+	}
+	pool := x509.NewCertPool()
+	pool.AddCert(root)
+	old1 := verify.SNPValidateFunc(&verify.Options{RootsOfTrust: pool})                            // Now unset
+	old2 := verify.SNPFamilyValidateFunc(sev.GCEUefiFamilyID, &verify.Options{RootsOfTrust: pool}) // Now unset
+	time.Sleep(1200 * time.Millisecond)
+	if _, err := a.Rotate(&doubles.FCtl{}, authority.Opts{}, &rotate.SigningKeyContext{SigningKeyCommonName: "signingKeyCn", Now: time.Now()}); err != nil {
+		h.viol("fault-free-rotation-failed", "wall-clock rotation: %v", err)
+		return
+	}
+	r := c.Rand(idx)
+	ec := endreq.Random(r, endreq.Opts{MaxImage: 64 << 10}, 1)
+	ec.Timestamp = time.Now()
+	ec.VCS, ec.OutDir = h.vcs, "out"
+	if err := a.Endorse(&doubles.FCtl{}, authority.Opts{}, ec); err != nil {
+		h.viol("fault-free-endorse-failed", "wall-clock endorse: %v", err)
+		return
+	}
+	raw := h.vcs.Head["out/"+ec.CandidateName+".binarypb"]
+	e := &epb.VMLaunchEndorsement{}
+	proto.Unmarshal(raw, e)
+	g := &epb.VMGoldenMeasurement{}
+	proto.Unmarshal(e.SerializedUefiGolden, g)
+	var m []byte
+	for _, v := range g.GetSevSnp().GetMeasurements() {
+		m = v
+	}
+	if m == nil {
+		return
+	}
+	for name, f := range map[string]func(*spb.Attestation, []byte) error{"validator built before the rotation (SNPValidateFunc, Now unset)": old1,
+		"validator built before the rotation (SNPFamilyValidateFunc, Now unset)": old2,
+		"fresh validator (Now unset)":                                            verify.SNPValidateFunc(&verify.Options{RootsOfTrust: pool})} {
+		err := f(gen.SnpAttestation(m, nil), raw)
+		c.Eval(1)
+		if err != nil {
+			h.viol("pipeline-endorsement-rejected", "%s rejects the endorsement issued after the rotation: %v", name, err)
+		} else {
+			c.Cell("wall-clock|%s", name)
+		}
+	}
+	if err := verify.Endorsement(raw, &verify.Options{RootsOfTrust: pool}); err != nil {
+		h.viol("pipeline-endorsement-rejected", "verify.Endorsement with Now unset rejects the endorsement issued after the rotation: %v", err)
+	}
+}
